@@ -447,7 +447,8 @@ def _split_guards(ev: Evaluator, test: ast.expr, env: dict) -> tuple[list, list]
         tt, ff = _split_guards(ev, test.operand, env)
         return ff, tt
     if isinstance(test, ast.BoolOp):
-        whole = ev.expr(test, env)
+        # (evaluated on a scratch copy: an assignment expression inside the test binds once, when its operand is split below)
+        whole = ev.expr(test, dict(env))
         if isinstance(test.op, ast.And):
             tt = []
             for v in test.values:
@@ -458,7 +459,7 @@ def _split_guards(ev: Evaluator, test: ast.expr, env: dict) -> tuple[list, list]
         ff = []
         group = None  # adjacent class tests on one subject are one fact
         for v in test.values:
-            tm = ev.expr(v, env)
+            tm = ev.expr(v, dict(env))
             if T._class_test(tm):
                 if group is not None and group[1] == tm[1] and group[2][0] == tm[2][0]:
                     group = T.merge_class_tests(("boolop", "or", (group, tm)))
@@ -560,6 +561,10 @@ class PathEnumerator:
                         aliases[tg.id] = [(v.body.id, [(v.test, True, dict(env2))]), (v.orelse.id, [(v.test, False, dict(env2))])]
                         continue
                     if any(isinstance(n, (ast.Yield, ast.YieldFrom, ast.Await, ast.NamedExpr)) for n in ast.walk(v)):
+                        return False
+                    if conds:
+                        # a local re-bound under a condition (`if C: x = f(x)` … `acc[k] = x`) has a different value on
+                        # each branch: not the straight-line body of a comprehension -- enumerate the loop instead
                         return False
                     env2[tg.id] = ev.expr(v, env2)
                     aliases.pop(tg.id, None)
